@@ -13,7 +13,7 @@
 
    Statements only; proofs in Proofs/C14xRhs.v, C14xTop.v. *)
 From EoNV Require Import Prelude Samp Graph Aux Vec IC Wrappers Rhs2D VecP EventSIR EventSIRP EventSIRInv EventSIRChar EventSIRTop Discrete DiscreteP
-     C14xDef C14xRhs C14xTop C14xOut C14xWrap C14xSim C14xEx.
+     C14xDef C14xRhs C14xTop C14xRK C14xOut C14xWrap C14xSim C14xEx.
 From Coq Require Import Permutation.
 
 Section C14x.
@@ -88,6 +88,17 @@ Theorem C14x_node_euler_outputs_invariant : forall sys h k t V V' off,
   block_sum (nN nodelist) off (euler (rhs2_node sys G' (map phi nl2) idx' tr' rc') h t k V') ==
   block_sum (nN nodelist) off (euler (rhs2_node sys G nodelist idx tr rc) h t k V).
 Proof. exact (node_euler_outputs_invariant _ _ _ _ _ _ _ _ _ _ _ R). Qed.
+(* ... and so do the discrete solutions of EVERY explicit Runge-Kutta method (any tableau tab / weights b, any step size h,
+   any number of steps k; Euler = ([(0, [])], [1]), classical RK4 = (rk4_tab, rk4_b)): block-by-block re-ordering, and equal
+   aggregated outputs *)
+Theorem C14x_node_runge_kutta_equivariant : forall sys tab b h k t V V',
+  length V = state_len sys (nN nodelist) -> veq V' (perm_state idx nl2 sys V) ->
+  state_rel nodelist idx nl2 sys (rk_iter tab b (rhs2_node sys G nodelist idx tr rc) h t k V)
+                                 (rk_iter tab b (rhs2_node sys G' (map phi nl2) idx' tr' rc') h t k V') /\
+  (forall off, In off (node_blocks sys (nN nodelist)) ->
+     block_sum (nN nodelist) off (rk_iter tab b (rhs2_node sys G' (map phi nl2) idx' tr' rc') h t k V') ==
+     block_sum (nN nodelist) off (rk_iter tab b (rhs2_node sys G nodelist idx tr rc) h t k V)).
+Proof. exact (fun sys => rk_solution_equivariant _ _ _ _ _ _ _ _ _ _ _ R sys). Qed.
 End C14x.
 
 (* the two special cases, with their own (weaker) hypotheses *)
@@ -120,6 +131,9 @@ Example C14x_label_as_index_refused :
   relabel_okb exG ex_nodelist ex_idx ex_tr ex_rc exG' ex_nl2 ex_phi (fun u => ex_idx (100 - u)%N) ex_tr' ex_rc' = false /\
   equivariant_at 0 exG ex_nodelist ex_idx ex_tr ex_rc exG' ex_nl2 ex_phi (fun u => ex_idx (100 - u)%N) ex_tr' ex_rc' (ex_V 0) 0 = false.
 Proof. exact (conj ex_wrong_index_refused ex_wrong_index_not_equivariant). Qed.
+Example C14x_rk4_moves :
+  veqb (rk_iter rk4_tab rk4_b (rhs2_node 0 exG ex_nodelist ex_idx ex_tr ex_rc) (1 # 10) 0 1 (ex_V 0)) (ex_V 0) = false.
+Proof. exact ex_rk4_moves. Qed.
 Example C14x_wf_satisfiable : nl_wfb exG ex_nodelist ex_idx = true.
 Proof. exact ex_wf. Qed.
 
@@ -286,6 +300,8 @@ Print Assumptions C14x_node_pure_IC_equivariant.
 Print Assumptions C14x_node_maps_solutions_to_solutions.
 Print Assumptions C14x_node_euler_equivariant.
 Print Assumptions C14x_node_euler_outputs_invariant.
+Print Assumptions C14x_node_runge_kutta_equivariant.
+Print Assumptions C14x_rk4_moves.
 Print Assumptions C14x_adjacency_order_irrelevant.
 Print Assumptions C14x_nodelist_order_equivariant.
 Print Assumptions C14x_hypotheses_satisfiable.
